@@ -55,6 +55,12 @@ def run(index, tier="quick", seed=0) -> Result:
     # ---- SC-3
     nsites = 0
     for s in sorted(sc.sites.values(), key=lambda s: (s.file, s.line)):
+        if s.verdict == "inhomogeneous":
+            nsites += 1
+            res.bad("SC-3", f"{s.func}:inhomogeneous:{s.k}:{s.c}", f"{s.file}:{s.line}",
+                    f"decision `{s.text[:70]}` compares a quantity of length degree {s.k} with one of degree {s.c}: the outcome changes "
+                    f"with the unit of length (the two sides scale differently)")
+            continue
         if s.k is None or s.k == 0 or s.c is None:
             if s.verdict == "unknown" and s.c is not None:
                 res.not_in_fragment.append(f"SC-3 {s.key}: degree of the compared quantity unknown (constant {s.c})")
